@@ -742,6 +742,21 @@ fn do_poll(h: &Harness, c: &mut Case, acts: Option<Vec<Vec<String>>>, t3: &mut V
             let released = (raw_before as i64 + c.env_delta - raw_after as i64).max(0) as usize;
             let expect = if done { c.queued.len() } else { released.min(c.queued.len()) };
             let closed = c.probe_closed(expect);
+            // C02: the shared counter is what the accept side compares with the limit: it counts exactly the connections that are
+            // alive at this worker — sent and counted, not yet handed over, or handed to a service and not finished
+            if !done && !c.w1 {
+                let live = c.queued.len() + c.shared.borrow().inflight.len();
+                if raw_after != 1 + live {
+                    t3.push(("C02".into(), format!(
+                        "after this poll the worker's shared counter reads {} connection(s) in progress but {live} are alive at the worker ({} queued, {} handed to services and not finished): the accept side compares this counter with max_concurrent_connections — it will dispatch {} the limit (events of the poll: [{}])",
+                        raw_after as i64 - 1,
+                        c.queued.len(),
+                        c.shared.borrow().inflight.len(),
+                        if raw_after < 1 + live { "past" } else { "short of" },
+                        ev_s.join(",")
+                    )));
+                }
+            }
             if done && !c.queued.is_empty() {
                 // the worker is gone: a connection still open on the client side was neither served nor closed
                 t3.push(("C01".into(), format!("connection(s) {:?} were sent to the worker and are neither served nor closed now that its future has completed (leaked)", c.queued)));
@@ -2168,6 +2183,8 @@ mod srvlevel {
         slow_teardown: std::sync::atomic::AtomicBool,
         /// calls of the factory so far
         factory_calls: AtomicUsize,
+        /// per instance: connections in progress now, and the most there were at the same time since the last reset
+        active: std::sync::Mutex<Vec<(usize, usize, usize)>>,
         /// notified: the thread that runs the Server future is kept busy for 1.5 s (commands pile up in its channel)
         busy: tokio::sync::Notify,
     }
@@ -2212,8 +2229,27 @@ mod srvlevel {
                 panic!("verif: killing worker instance {} on purpose", self.gen);
             }
             let gen = self.gen;
+            struct Active(Arc<FaultShared>, usize);
+            impl Drop for Active {
+                fn drop(&mut self) {
+                    if let Some(e) = self.0.active.lock().unwrap().iter_mut().find(|e| e.0 == self.1) {
+                        e.1 = e.1.saturating_sub(1);
+                    }
+                }
+            }
+            {
+                let mut a = self.shared.active.lock().unwrap();
+                if !a.iter().any(|e| e.0 == gen) {
+                    a.push((gen, 0, 0));
+                }
+                let e = a.iter_mut().find(|e| e.0 == gen).unwrap();
+                e.1 += 1;
+                e.2 = e.2.max(e.1);
+            }
+            let active = Active(self.shared.clone(), gen);
             Box::pin(async move {
                 use tokio::io::AsyncReadExt;
+                let _active = active;
                 let _ = stream.write_all(&[b'0' + gen as u8]).await;
                 // in progress until the client goes away
                 let mut buf = [0u8; 16];
@@ -2367,6 +2403,7 @@ mod srvlevel {
                 wakers: Default::default(),
                 slow_teardown: std::sync::atomic::AtomicBool::new(!busystop && !sat && !pausedrep),
                 factory_calls: AtomicUsize::new(0),
+                active: Default::default(),
                 busy: tokio::sync::Notify::new(),
             });
             let sh = shared.clone();
@@ -2741,37 +2778,65 @@ mod srvlevel {
             let mut pair_obs = String::new();
             if pair {
                 tokio::time::sleep(Duration::from_millis(400)).await;
-                let tasks: Vec<_> = (0..workers)
+                for e in shared.active.lock().unwrap().iter_mut() {
+                    e.2 = e.1;
+                }
+                // with a limit: two more than all the workers together may hold — the surplus waits, no worker takes more
+                // than its limit (a replacement worker serves with the configuration of the server, like the one it replaces)
+                let n_conn = limit.map_or(workers, |l| workers * l + 2);
+                let answered = Arc::new(AtomicUsize::new(0));
+                let tasks: Vec<_> = (0..n_conn)
                     .map(|_| {
+                        let answered = answered.clone();
                         tokio::spawn(async move {
                             use tokio::io::AsyncReadExt;
                             let mut c = tokio::net::TcpStream::connect(addr).await.ok()?;
                             let _ = socket2::SockRef::from(&c).set_linger(Some(Duration::ZERO));
                             let mut b = [0u8; 1];
                             match tokio::time::timeout(w, c.read_exact(&mut b)).await {
-                                Ok(Ok(_)) => Some((c, b[0])),
+                                Ok(Ok(_)) => {
+                                    answered.fetch_add(1, Ordering::SeqCst);
+                                    // held until the scenario lets go
+                                    let mut rest = [0u8; 8];
+                                    let _ = c.read(&mut rest).await;
+                                    Some(b[0])
+                                }
                                 _ => None,
                             }
                         })
                     })
                     .collect();
-                let mut heldc = vec![];
-                for t in tasks {
-                    if let Ok(Some(x)) = t.await {
-                        heldc.push(x);
-                    }
+                let t = Instant::now();
+                while answered.load(Ordering::SeqCst) < workers && t.elapsed() < w {
+                    tokio::time::sleep(Duration::from_millis(25)).await;
                 }
-                if heldc.len() < workers {
+                tokio::time::sleep(Duration::from_millis(700)).await; // time for a worker to take more than it may
+                let got = answered.load(Ordering::SeqCst);
+                let peaks: Vec<(usize, usize)> = shared.active.lock().unwrap().iter().map(|e| (e.0, e.2)).collect();
+                for t in &tasks {
+                    t.abort(); // the clients go away
+                }
+                if got < workers {
                     fails.push(format!(
-                        "[C08,C03] after {faults} worker(s) had died and been replaced, only {} of {workers} connections opened at the same time were answered within 8 s (answered by instance(s) {:?}{}): a replacement is not in the rotation under an index of its own",
-                        heldc.len(),
-                        heldc.iter().map(|x| x.1 as char).collect::<Vec<_>>(),
+                        "[C08,C03] after {faults} worker(s) had died and been replaced, only {got} of {workers} connections opened at the same time were answered within 8 s{}: a replacement is not in the rotation under an index of its own",
                         limit.map_or(String::new(), |l| format!("; every worker may hold {l}")),
                     ));
                 }
-                pair_obs = format!(" pair={}/{workers}", heldc.len());
-                drop(heldc);
-                tokio::time::sleep(Duration::from_millis(100)).await;
+                let mut peak_obs = String::new();
+                if let Some(l) = limit {
+                    let peak = peaks.iter().map(|p| p.1).max().unwrap_or(0);
+                    for (g, p) in &peaks {
+                        if *p > l {
+                            fails.push(format!(
+                                "[C08,C02] service instance {g}{} had {p} connections in progress at the same time although max_concurrent_connections is {l}: a replacement worker serves with the configuration of the server, like the worker it replaces",
+                                if *g > workers { " (a replacement worker)" } else { "" }
+                            ));
+                        }
+                    }
+                    peak_obs = format!(" peak={peak}");
+                }
+                pair_obs = format!(" pair={}/{workers}{peak_obs}", got.min(workers));
+                tokio::time::sleep(Duration::from_millis(150)).await;
             }
             // `stop=1`: a connection is held open on the REPLACEMENT worker, then a graceful stop: it has to wait for it
             let mut stop_obs = String::new();
@@ -2819,7 +2884,7 @@ mod srvlevel {
                                 stop_fails.push(format!("[C06,C08] after worker 0 was replaced, a graceful stop completed after {ms} ms although a connection was in progress on the replacement worker (instance {}) and shutdown_timeout is {need} ms: the server did not wait for the replacement worker", inst as char));
                             }
                         } else {
-                            stop_fails.push("[C06] the stop() future did not resolve within its bound + 5 s".into());
+                            stop_fails.push(format!("[C06,C08] the stop() future did not resolve within its bound + 5 s: a graceful stop waits for the connection on the replacement worker no longer than the configured shutdown_timeout ({} ms) — a replacement worker has the configuration of the server", STOP_T * 1000));
                         }
                         if let Some(ms) = t_closed {
                             if ms + 60 < need {
